@@ -11,7 +11,7 @@ import QGen.Imports
   rebuild it with `fromDict` and report `ok`, `lost a,b` (root-level settings / slots in which the rebuilt
   object differs) or `err <kind> <detail>`.
     tree      ::= N <Class> <k> (<slot> <key> <tree>){k}          key `-` = none
-    mutation  ::= none | drop <sect> <key> | rename <Name> | extra <key> | dropslot <slot>
+    mutation  ::= none | drop <sect> <key> | rename <Name> | extra <key> | extraattr <key> | dropslot <slot>
 * `c08.wf <Class>`  — `wf` of the spec (C07 view) and of its C08 view
 * `c08.imp <module>` — verdict of `importFirst` for a fresh interpreter importing `<module>` first
 * `c08.reg <module>` — registered names missing after `import <module>; import quansino.mc`
@@ -47,13 +47,14 @@ def parseSect : String → Option Sect
   | "context" => some .context | "top" => some .top | _ => none
 
 inductive Mut
-  | none | drop (s : Sect) (k : String) | rename (n : String) | extra (k : String) | dropslot (slot : String)
+  | none | drop (s : Sect) (k : String) | rename (n : String) | extra (k : String) | extraattr (k : String) | dropslot (slot : String)
 
 def parseMut : List String → Option Mut
   | ["none"] => some .none
   | ["drop", s, k] => (parseSect s).map (fun s => .drop s k)
   | ["rename", n] => some (.rename n)
   | ["extra", k] => some (.extra k)
+  | ["extraattr", k] => some (.extraattr k)
   | ["dropslot", s] => some (.dropslot s)
   | _ => Option.none
 
@@ -73,6 +74,7 @@ def applyMut (m : Mut) : Dict V → Dict V
     | .drop .top k => .mk n kw at_ cx (dropKey k tp) ks
     | .rename n' => .mk n' kw at_ cx tp ks
     | .extra k => .mk n (kw ++ [(k, 999)]) at_ cx tp ks
+    | .extraattr k => .mk n kw (at_ ++ [(k, 999)]) cx tp ks
     | .dropslot s => .mk n kw at_ cx tp (DKids.dropSlot ks s)
 
 mutual
